@@ -218,3 +218,22 @@ Example C03_ex_check_case :
   /\ check_case (IndexCall [[0; 0x1p-1; 1]; [10; 20]]%float [[2%nat; 0%nat]; [1%nat; 1%nat]] [[1; 10]; [0x1p-1; 20]]%float) = true
   /\ check_case (IndexCall [[0; 0x1p-1; 1]; [10; 20]]%float [[2%nat; 0%nat]] [[0x1p-1; 10]]%float) = false.
 Proof. vm_compute. repeat split; reflexivity. Qed.
+
+(* Consequently the user's model is never simulated at a parameter outside the declared space: in the calibrator model
+   (C02) driven by the built-in sampler model, every parameter recorded in every reachable state - live or checkpointed,
+   after any sequence of calibrate / checkpoint / restore / set_samplers / set_scheduler, with any faults - is on the grid;
+   and by C02's invariant each recorded series is the model run on exactly such a parameter. *)
+From BlackIt Require Import Model.Calibrator Proofs.CalibratorP Proofs.CalibLinkP.
+Theorem C03_calibrator_never_leaves_space :
+  forall Series LossV ltb absdiff grids St raw_of idx_of cls_of state_of budget_of,
+  Forall (fun g : list Z => g <> []) grids ->
+  raw_width_ok grids St (list point * list LossV) raw_of -> idx_ok grids St (list point * list LossV) idx_of ->
+  raw_rows_ok St (list point * list LossV) raw_of -> idx_rows_ok St (list point * list LossV) idx_of ->
+  forall (model : point -> Z -> Series) lossf loss_leb rounds0 draws agent_actions plan cfg0 samplers scheduler s0 ops,
+    construct point Series LossV cfg0 samplers scheduler = inl s0 ->
+    PInvS point Series LossV (on_grid Z grids)
+         (run point Series LossV model lossf loss_leb rounds0
+              (builtin_propose LossV ltb absdiff grids St raw_of idx_of cls_of state_of budget_of)
+              draws agent_actions plan ops s0).
+Proof. intros. eapply reachable_params_P; [| |eassumption]; intros; [now apply builtin_propose_len | now apply builtin_propose_on_grid]. Qed.
+Print Assumptions C03_calibrator_never_leaves_space.
